@@ -82,3 +82,316 @@ Example C05_scenario :
     l_commit (ln s 1) = 2%nat /\ l_commit (ln s 2) = 2%nat /\ l_commit (ln s 3) = 1%nat /\
     cpts s = [(1,2%nat)] /\ acked s 2 1 = 2%nat.
 Proof. exact sc_runs. Qed.
+
+
+(* ====================================================================== *)
+(* ==== node level ====================================================== *)
+(* ====================================================================== *)
+(* TWO LEVELS.  Everything above is about the abstract protocol P/Log.v (all nodes, all
+   interleavings): log matching is a cross-node invariant and can only be stated there.
+   This section is about ONE node of the executable model (M/Raft.v, M/RawNode.v - the
+   port of the Rust that the differential testing ties to the code), per call, over ALL
+   states satisfying the log representation invariant of C14 (LI rw r := RepInv rw (r_log r),
+   Props/C14.v "node level"); proofs in M/RaftProofsC05.v.  The link between the levels is
+   the trace acceptor (P/LogAccept.v, checked on simulated traces of the real code): it
+   accepts a node transition only as an instance of a P rule, and the theorems below say
+   what every model call does to the log that the acceptor reads.  The M modules are
+   imported HERE, after the P-level statements; each statement is closed by
+   [exact <lemma of M/RaftProofsC05.v>], so it denotes the M-level objects.
+   The logical log: abs (r_log r) : LL with base index ll_base, entries ll_ents (unstable
+   entries and a pending snapshot included), ll_get L i the entry at index i.
+     grows l l'  := same base and base term, ll_ents (abs l') = ll_ents (abs l) ++ suffix
+     crel l l'   := committed l <= committed l', base l <= base l', and for every
+                    i <= committed l with base l' < i: ll_get (abs l') i = ll_get (abs l) i
+   PROVED
+   (1) leader append-only, per call: step (any message), tick, on_persist_entries,
+       commit_apply, apply_conf_change and every RawNode entry point
+       (C05_node_exec_leader_append_only): leader before, leader after, same term => grows.
+       In step_leader the log grows whatever the message (a demotion leaves it alone);
+       storage writes are separate: they leave the logical log unchanged except that a
+       compaction forgets a prefix below applied (C05_node_store_write_forgets_prefix).
+   (2) committed prefix immutable, per call and for every role: crel for every function
+       that changes the log (C05_node_step_rcrel, .._tick_rcrel, ..) and every RawNode
+       call incl. storage writes (C05_node_exec_crel); a snapshot install, exactly
+       (C05_node_restore_installs: the log becomes the empty log based at the snapshot index,
+       which is >= the old commit index - entries leave only by being covered); traces from
+       RawNode::new (C05_node_committed_entries_stable): an entry once at or below the commit
+       index is the same entry for as long as its index is retained; the commit index never
+       goes back.
+   (3) the consistency check (C05_node_append_check): the four ways handle_append_entries
+       answers; an acceptance means term m_log_term at m_index in the follower's log, then
+       every message entry has a log entry of its index and term, and from the first
+       conflicting index on the log holds exactly the message's entries.
+   REFUTED as literally requested: "a non-reject answer only after the term check" - an
+       append anchored below the commit index is answered (non-reject, index = commit index)
+       without looking at the log (C05_node_stale_append_not_checked; same in the Rust).
+   NOT PROVED here: log matching itself (cross-node; P level above); that the entries
+       BEFORE the first conflict carry the message's payloads (only index and term are
+       compared by the code; equality of payloads is log matching). *)
+From RV Require Import Base.IdSet M.Util M.UtilProofs M.Proto M.MemStorage M.MemStorageProofs
+  M.Inflights M.Progress M.RaftLog M.ConfChange M.Msg M.Raft M.RawNode M.RaftProofs
+  M.RaftLogProofs M.RaftLogProofsOps M.RaftLogProofsStore M.RaftLogProofsSlice M.RaftLogProofsHistory
+  M.RaftProofsC15 M.RaftProofsC09 M.RaftProofsC08 M.RaftProofsC13 M.RaftProofsC07
+  M.RaftProofsRepInv M.RaftProofsC05.
+From RecordUpdate Require Import RecordSet.
+Import RecordSetNotations.
+
+Theorem C05_node_grows_def :
+  forall l l',
+  grows l l' <->
+  ll_base (abs l') = ll_base (abs l) /\ ll_bterm (abs l') = ll_bterm (abs l)
+  /\ exists suffix, ll_ents (abs l') = ll_ents (abs l) ++ suffix.
+Proof. exact grows_def. Qed.
+Print Assumptions C05_node_grows_def.
+
+Theorem C05_node_crel_def :
+  forall l l',
+  crel l l' <->
+  committed l <= committed l' /\ ll_base (abs l) <= ll_base (abs l')
+  /\ forall i, i <= committed l -> ll_base (abs l') < i -> ll_get (abs l') i = ll_get (abs l) i.
+Proof. exact crel_def. Qed.
+Print Assumptions C05_node_crel_def.
+
+Theorem C05_node_rcrel_def :
+  forall r r',
+  rcrel r r' <-> crel (r_log r) (r_log r').
+Proof. exact rcrel_def. Qed.
+Print Assumptions C05_node_rcrel_def.
+
+(* RaftLog operations *)
+Theorem C05_node_log_append_rel :
+  forall rw l e0 t l' li,
+  log_append l (e0 :: t) = Ok (l', li) -> RepInv rw l ->
+  contiguous_from (e_index e0) (e0 :: t) -> persisted l < e_index e0 ->
+  e_index e0 + N.of_nat (length (e0 :: t)) <= u64_max ->
+  abs l' = ll_append (abs l) (e0 :: t) /\ committed l < e_index e0 <= ll_last (abs l) + 1
+  /\ committed l' = committed l /\ crel l l'.
+Proof. exact log_append_rel. Qed.
+Print Assumptions C05_node_log_append_rel.
+
+Theorem C05_node_maybe_append_crel :
+  forall rw l i t cmt ents l' res,
+  maybe_append l i t cmt ents = Ok (l', res) -> RepInv rw l ->
+  contiguous_from (i + 1) ents -> i + N.of_nat (length ents) < u64_max -> crel l l'.
+Proof. exact maybe_append_crel. Qed.
+Print Assumptions C05_node_maybe_append_crel.
+
+Theorem C05_node_log_restore_crel :
+  forall rw l s l',
+  log_restore l s = Ok l' -> RepInv rw l -> s_index s < u64_max ->
+  crel l l' /\ abs l' = mkLL (s_index s) (Some (s_term s)) [] /\ committed l <= s_index s
+  /\ committed l' = s_index s.
+Proof. exact log_restore_crel. Qed.
+Print Assumptions C05_node_log_restore_crel.
+
+(* (1) leader append-only *)
+Theorem C05_node_append_entry_rel :
+  forall rw r es r' ok,
+  append_entry r es = Ok (r', ok) -> LI rw r -> room (N.of_nat (length es)) r ->
+  rcrel r r' /\ grows (r_log r) (r_log r').
+Proof. exact append_entry_rel. Qed.
+Print Assumptions C05_node_append_entry_rel.
+
+Theorem C05_node_become_leader_rel :
+  forall rw r r',
+  become_leader r = Ok r' -> LI rw r -> room 1 r -> rcrel r r' /\ grows (r_log r) (r_log r').
+Proof. exact become_leader_rel. Qed.
+Print Assumptions C05_node_become_leader_rel.
+
+Theorem C05_node_step_leader_grows :
+  forall rw r m r' c,
+  step_leader r m = Ok (r', c) -> msg_wf (last_index (r_log r)) m -> LI rw r ->
+  grows (r_log r) (r_log r').
+Proof. exact step_leader_grows. Qed.
+Print Assumptions C05_node_step_leader_grows.
+
+Theorem C05_node_step_leader_append_only :
+  forall rw r m r' c,
+  step r m = Ok (r', c) -> r_state r = Leader -> r_state r' = Leader -> r_term r' = r_term r ->
+  msg_wf (last_index (r_log r)) m -> LI rw r -> grows (r_log r) (r_log r').
+Proof. exact step_leader_append_only. Qed.
+Print Assumptions C05_node_step_leader_append_only.
+
+Theorem C05_node_tick_leader_append_only :
+  forall rw r r' b,
+  tick r = Ok (r', b) -> r_state r = Leader -> LI rw r -> grows (r_log r) (r_log r').
+Proof. exact tick_leader_append_only. Qed.
+Print Assumptions C05_node_tick_leader_append_only.
+
+Theorem C05_node_on_persist_entries_grows :
+  forall rw r i t r',
+  on_persist_entries r i t = Ok r' -> LI rw r -> grows (r_log r) (r_log r').
+Proof. exact on_persist_entries_grows. Qed.
+Print Assumptions C05_node_on_persist_entries_grows.
+
+Theorem C05_node_raft_apply_conf_change_grows :
+  forall rw r cc r' ocs,
+  raft_apply_conf_change r cc = Ok (r', ocs) -> LI rw r -> grows (r_log r) (r_log r').
+Proof. exact raft_apply_conf_change_grows. Qed.
+Print Assumptions C05_node_raft_apply_conf_change_grows.
+
+Theorem C05_node_commit_apply_rel :
+  forall rw r a r',
+  commit_apply r a = Ok r' -> LI rw r -> (is_leader r = true -> room 1 r) ->
+  rcrel r r' /\ grows (r_log r) (r_log r').
+Proof. exact commit_apply_rel. Qed.
+Print Assumptions C05_node_commit_apply_rel.
+
+Theorem C05_node_exec_leader_append_only :
+  forall rw n o n' ot,
+  exec n o = Ok (n', ot) -> op_wf n o -> NLI rw n -> (forall m, o <> OSetStore m) ->
+  r_state (rn_raft n) = Leader -> r_state (rn_raft n') = Leader ->
+  r_term (rn_raft n') = r_term (rn_raft n) -> grows (nlog n) (nlog n').
+Proof. exact exec_leader_append_only. Qed.
+Print Assumptions C05_node_exec_leader_append_only.
+
+Theorem C05_node_store_write_forgets_prefix :
+  forall rw l st',
+  store_write l st' -> RepInv rw l ->
+  abs (set_store l st') = abs l
+  \/ exists k, ll_ents (abs (set_store l st')) = skipn k (ll_ents (abs l))
+       /\ ll_base (abs (set_store l st')) = ll_base (abs l) + N.of_nat k
+       /\ ll_base (abs (set_store l st')) < applied l.
+Proof. exact store_write_forgets_prefix. Qed.
+Print Assumptions C05_node_store_write_forgets_prefix.
+
+Theorem C05_node_store_write_base :
+  forall rw l st',
+  store_write l st' -> RepInv rw l -> ll_base (abs l) <= ll_base (abs (set_store l st')).
+Proof. exact store_write_base. Qed.
+Print Assumptions C05_node_store_write_base.
+
+(* (2) committed prefix immutable *)
+Theorem C05_node_handle_append_entries_rcrel :
+  forall rw r m r',
+  handle_append_entries r m = Ok r' -> append_wf m -> LI rw r -> rcrel r r'.
+Proof. exact handle_append_entries_rcrel. Qed.
+Print Assumptions C05_node_handle_append_entries_rcrel.
+
+Theorem C05_node_handle_heartbeat_rcrel :
+  forall rw r m r',
+  handle_heartbeat r m = Ok r' -> LI rw r -> rcrel r r'.
+Proof. exact handle_heartbeat_rcrel. Qed.
+Print Assumptions C05_node_handle_heartbeat_rcrel.
+
+Theorem C05_node_restore_rcrel :
+  forall rw r s r' b,
+  restore r s = Ok (r', b) -> s_index s < u64_max -> LI rw r -> rcrel r r'.
+Proof. exact restore_rcrel. Qed.
+Print Assumptions C05_node_restore_rcrel.
+
+Theorem C05_node_restore_installs :
+  forall rw r s r',
+  restore r s = Ok (r', true) -> s_index s < u64_max -> LI rw r ->
+  abs (r_log r') = mkLL (s_index s) (Some (s_term s)) []
+  /\ committed (r_log r) <= s_index s /\ s_index s <= committed (r_log r').
+Proof. exact restore_installs. Qed.
+Print Assumptions C05_node_restore_installs.
+
+Theorem C05_node_step_rcrel :
+  forall rw r m r' c,
+  step r m = Ok (r', c) -> msg_wf (last_index (r_log r)) m -> LI rw r -> rcrel r r'.
+Proof. exact step_rcrel. Qed.
+Print Assumptions C05_node_step_rcrel.
+
+Theorem C05_node_tick_rcrel :
+  forall rw r r' b,
+  tick r = Ok (r', b) -> LI rw r -> room 1 r -> rcrel r r'.
+Proof. exact tick_rcrel. Qed.
+Print Assumptions C05_node_tick_rcrel.
+
+Theorem C05_node_on_persist_entries_rcrel :
+  forall rw r i t r',
+  on_persist_entries r i t = Ok r' -> LI rw r -> rcrel r r'.
+Proof. exact on_persist_entries_rcrel. Qed.
+Print Assumptions C05_node_on_persist_entries_rcrel.
+
+Theorem C05_node_on_persist_snap_rcrel :
+  forall rw r i r',
+  on_persist_snap r i = Ok r' -> LI rw r ->
+  (persisted (r_log r) < i -> i < next_of (store (r_log r))) -> rcrel r r'.
+Proof. exact on_persist_snap_rcrel. Qed.
+Print Assumptions C05_node_on_persist_snap_rcrel.
+
+Theorem C05_node_raft_apply_conf_change_rcrel :
+  forall rw r cc r' ocs,
+  raft_apply_conf_change r cc = Ok (r', ocs) -> LI rw r -> rcrel r r'.
+Proof. exact raft_apply_conf_change_rcrel. Qed.
+Print Assumptions C05_node_raft_apply_conf_change_rcrel.
+
+Theorem C05_node_load_state_rcrel :
+  forall r hs r',
+  load_state r hs = Ok r' -> rcrel r r'.
+Proof. exact load_state_rcrel. Qed.
+Print Assumptions C05_node_load_state_rcrel.
+
+Theorem C05_node_exec_crel :
+  forall rw n o n' ot,
+  exec n o = Ok (n', ot) -> op_wf n o -> NLI rw n -> crel (nlog n) (nlog n').
+Proof. exact exec_crel. Qed.
+Print Assumptions C05_node_exec_crel.
+
+Theorem C05_node_wrun_crel :
+  forall rw n n',
+  wrun n n' -> NLI rw n -> crel (nlog n) (nlog n').
+Proof. exact wrun_crel. Qed.
+Print Assumptions C05_node_wrun_crel.
+
+Theorem C05_node_committed_entries_stable :
+  forall c st sa dr n0 n n',
+  rn_new c st sa dr = Ok (inr n0) -> SInv st -> trig_log st = false ->
+  wrun n0 n -> wrun n n' ->
+  committed (nlog n) <= committed (nlog n')
+  /\ forall i e, i <= committed (nlog n) -> ll_get (abs (nlog n)) i = Some e ->
+       ll_base (abs (nlog n')) < i -> ll_get (abs (nlog n')) i = Some e.
+Proof. exact committed_entries_stable. Qed.
+Print Assumptions C05_node_committed_entries_stable.
+
+(* (3) the consistency check *)
+Theorem C05_node_append_check :
+  forall rw r m r',
+  handle_append_entries r m = Ok r' -> LI rw r ->
+  contiguous_from (m_index m + 1) (m_entries m) -> nz_terms (m_entries m) ->
+  (m_index m <= last_index (r_log r) \/ m_log_term m <> 0) ->
+  m_index m + N.of_nat (length (m_entries m)) < u64_max ->
+  let L := abs (r_log r) in
+  let i := m_index m in
+  let lastnew := m_index m + N.of_nat (length (m_entries m)) in
+  exists resp, r_msgs r' = r_msgs r ++ [resp] /\ m_type resp = MsgAppendResponse /\
+  ( (* (0) a snapshot was requested: the append is not looked at *)
+    (r_pending_request_snapshot r <> INVALID_INDEX /\ r_log r' = r_log r /\ m_reject resp = true)
+    \/ (* (1) stale: everything up to the commit index is known to match *)
+    (r_pending_request_snapshot r = INVALID_INDEX /\ i < committed (r_log r) /\ r_log r' = r_log r
+     /\ m_reject resp = false /\ m_index resp = committed (r_log r))
+    \/ (* (2) accepted *)
+    (r_pending_request_snapshot r = INVALID_INDEX /\ committed (r_log r) <= i
+     /\ ll_term L i = SOk (m_log_term m)
+     /\ m_reject resp = false /\ m_index resp = lastnew
+     /\ abs (r_log r') = ll_maybe_append L i (m_entries m)
+     /\ committed (r_log r') = N.max (committed (r_log r)) (N.min (m_commit m) lastnew)
+     /\ (forall k e, nth_error (m_entries m) k = Some e ->
+           exists e', ll_get (abs (r_log r')) (i + 1 + N.of_nat k) = Some e'
+                      /\ e_term e' = e_term e /\ e_index e' = e_index e)
+     /\ (forall k e, nth_error (m_entries m) k = Some e ->
+           ll_find_conflict L (m_entries m) <> 0 ->
+           ll_find_conflict L (m_entries m) <= i + 1 + N.of_nat k ->
+           ll_get (abs (r_log r')) (i + 1 + N.of_nat k) = Some e))
+    \/ (* (3) rejected: no such term at m_index *)
+    (r_pending_request_snapshot r = INVALID_INDEX /\ committed (r_log r) <= i
+     /\ ll_term L i <> SOk (m_log_term m) /\ r_log r' = r_log r
+     /\ m_reject resp = true /\ m_index resp = i) ).
+Proof. exact append_check. Qed.
+Print Assumptions C05_node_append_check.
+
+Import Samples RepInvSamples C05Samples.
+
+(* the literal reading of (3) is false: the stale case *)
+Theorem C05_node_stale_append_not_checked :
+  committed (nlog f3) = 1
+    /\ ll_term (abs (nlog f3)) 0 = SOk 0
+    /\ exists r' resp, handle_append_entries (rn_raft f3) stale = Ok r'
+         /\ r_msgs r' = r_msgs (rn_raft f3) ++ [resp]
+         /\ m_reject resp = false /\ m_index resp = 1 /\ r_log r' = r_log (rn_raft f3).
+Proof. exact stale_append_not_checked. Qed.
+Print Assumptions C05_node_stale_append_not_checked.
+
